@@ -55,6 +55,10 @@ theorem pretty_cycle_marker (h : Heap) (n : Nat) (path : List Cont) (q : Bool) (
     pretty h (n + 1) path q true v = some b!"<circular reference>" :=
   pretty_on_path h n path q v hp
 
+/-- non-vacuity of `pretty_cycle_marker` / `pretty_marker_iff`: array 0 below itself -/
+example : onPath [Cont.a 0] (.arr 0) = true ∧ (Val.arr 0).cont? ≠ none := by
+  refine ⟨by decide, ?_⟩; simp [Val.cont?]
+
 /-- … and only there: an array NOT on the path is rendered in full, as `[` elements `]`, each
     element rendered below the extended path. -/
 theorem pretty_arr_not_on_path (h : Heap) (n : Nat) (path : List Cont) (q check : Bool) (a : ArrId)
@@ -227,11 +231,29 @@ theorem print_bare (s : St) (c : CellId) (hroot : s.ruleRoot = some c) :
   | some r =>
     exact ⟨r, rfl, by simp [printAction, bind, EM.bind, getSt, hroot, hm, emit]⟩
 
+/-- non-vacuity of `print_bare`: the rule root is cell 0, holding a string -/
+example : printAction []
+      { heap := ⟨#[.str b!"a b" none], #[], #[]⟩, frames := [], out := [], root := none,
+        ruleRoot := some 0, returnVal := none, faults := 0 } =
+    .ok () { heap := ⟨#[.str b!"a b" none], #[], #[]⟩, frames := [], out := [b!"a b\n"], root := none,
+             ruleRoot := some 0, returnVal := none, faults := 0 } := by
+  rfl
+
+/-- non-vacuity of `print_format` / `print_output` (hypothesis `hargs`): the argument list of
+    `print true` evaluates to one cell -/
+example : (match evalExprList Program.empty 3 [.lit ⟨.true_, 0, []⟩] false default with
+    | .ok cs _ => some cs | _ => none) = some [0] := by decide +kernel
+
 /-- if evaluating the arguments fails, nothing is printed by this statement -/
 theorem print_args_error (prog : Program) (n : Nat) (t : Token) (args : List Expr) (s s1 : St)
     (e : Err) (hargs : evalExprList prog n args false s = .err e s1) :
     evalStmt prog (n + 1) (.print t args) s = .err e s1 := by
   rw [evalStmt_print]; simp only [bind, EM.bind, hargs]
+
+/-- non-vacuity of `print_args_error`: an argument whose evaluation fails (a variable without
+    any frame is the model's panic "no frame") -/
+example : (match evalExprList Program.empty 5 [.ident ⟨.ident, 0, b!"x"⟩] false default with
+    | .err e _ => some e | _ => none) = some (.panic "no frame") := by decide +kernel
 
 /-- Clause "top-level strings raw; true, false and null as words; numbers via FormatFloat" -/
 theorem prettyTop_leaves (h : Heap) :
@@ -362,6 +384,13 @@ theorem pretty_flat_reparses_partial (h : Heap) (a : ArrId) (numOk : Bytes → B
       rcases hleaf c hc with e | e <;> cases hv : h.get c <;>
         simp_all [Val.kind, toJVal, onPath, Val.cont?, elemOf, Reparse.tree]
     rw [this]; rfl
+
+/-- non-vacuity of `pretty_flat_reparses_partial` / `pretty_denotes_partial`: array 0 of the
+    heap holds `true`, `null`, `false` -/
+example : ∀ c ∈ ((⟨#[.bool true, .nil none, .bool false], #[#[0, 1, 2]], #[]⟩ : Heap).arr 0).toList,
+    ((⟨#[.bool true, .nil none, .bool false], #[#[0, 1, 2]], #[]⟩ : Heap).get c).kind = .bool ∨
+    ((⟨#[.bool true, .nil none, .bool false], #[#[0, 1, 2]], #[]⟩ : Heap).get c).kind = .nil := by
+  decide
 
 example : Json.decodeOne (fun _ => true) b!"[true, null, false]" .eof
     == .value (.arr [.bool true, .null, .bool false]) [] := by decide +kernel
